@@ -601,6 +601,160 @@ def canonical_specs(tier):
         yield dict(start=STARTS.index(start), steps=[[names.index(fn), a, b] for fn, a, b in steps], k=3)
 
 
+# ------------------------------------------------------------------------------------------
+# generated programs + statement level edits: the start model is a generated flat $PRED program (top level
+# assignments, logical IFs and IF/ELSEIF/ELSE blocks over previously assigned variables; none of the shapes
+# pharmpy is known to misread, see C01), the steps are small edits through the public API that make the
+# NONMEM code record regenerate only some of its statements (rename_symbols, one statement's expression
+# replaced, a statement inserted, an initial estimate changed). After every step the meaning of model.code
+# (reference interpreter) must equal the meaning of the in-memory model.
+
+
+def _gen_spec():
+    from . import c01
+
+    return st.fixed_dictionaries(
+        dict(
+            prog=c01.LOGIC_SPEC,
+            edits=st.lists(st.tuples(st.integers(0, 5), st.integers(0, 30), st.integers(0, 30)).map(list), min_size=1, max_size=4),
+            k=st.integers(0, 50),
+        )
+    )
+
+
+def _scale_expr(expr, b):
+    """the same expression shape with other values: e -> 2*e + 1 (applied inside the branches of a Piecewise,
+    which is what an IF statement is in memory)"""
+    import sympy
+
+    e = expr._sympy_() if hasattr(expr, '_sympy_') else sympy.sympify(expr)
+    f = sympy.Integer(2 + b % 3)
+    if isinstance(e, sympy.Piecewise):
+        # only the first branch changes: the other branches (a written `ELSE X = 0`, the kept previous value) stay
+        return sympy.Piecewise(*([(f * e.args[0][0] + 1, e.args[0][1])] + [(x, c) for x, c in e.args[1:]]))
+    return f * e + 1
+
+
+def _apply_edit(model, kind, a, b):
+    import pharmpy.modeling as pm
+    from pharmpy.basic import Expr
+    from pharmpy.model import Assignment
+
+    sts = model.statements
+    idx = [i for i, s_ in enumerate(sts) if isinstance(s_, Assignment)]
+    dvs = {str(k) for k in model.dependent_variables}
+    names = sorted({str(sts[i].symbol) for i in idx} - dvs)
+    taken = {str(x) for x in sts.free_symbols} | set(names)
+    kind %= 6
+    if kind in (0, 1):
+        if not names:
+            raise Reject('nothing to rename')
+        old = names[a % len(names)]
+        new = old + 'N'
+        while new in taken:
+            new += 'N'
+        return 'rename_symbols', pm.rename_symbols(model, {old: new})
+    if kind in (2, 3):
+        cand = [i for i in idx if str(sts[i].symbol) not in dvs]
+        if kind == 2:
+            # prefer conditional statements (IF lines and blocks): their regeneration is the intricate part
+            pw = [i for i in cand if sts[i].expression.is_piecewise()]
+            cand = pw or cand
+        if not cand:
+            raise Reject('no statement to change')
+        i = cand[a % len(cand)]
+        s_ = sts[i]
+        new = Assignment.create(s_.symbol, Expr(_scale_expr(s_.expression, b)))
+        return 'replace_statement', model.replace(statements=sts[:i] + new + sts[i + 1 :]).update_source()
+    if kind == 4:
+        i = idx[a % len(idx)]
+        new = 'NEWV'
+        while new in taken:
+            new += 'N'
+        ns = Assignment.create(Expr.symbol(new), sts[i].symbol + 1)
+        return 'insert_statement', model.replace(statements=sts[: i + 1] + ns + sts[i + 1 :]).update_source()
+    ths = theta_names(model)
+    nm = ths[a % len(ths)]
+    p_ = model.parameters[nm]
+    if p_.fix:
+        raise Reject('fixed theta')
+    lo, up, init = float(p_.lower), float(p_.upper), float(p_.init)
+    val = init * (1.0 + 0.05 * (1 + b % 5))
+    if not (lo < val < up):
+        raise Reject('new initial estimate outside bounds')
+    return 'set_initial_estimates', pm.set_initial_estimates(model, {nm: val})
+
+
+def run_generated(spec):
+    from pharmpy.modeling import read_model_from_string
+
+    from . import c01
+
+    b = c01.build(spec['prog'])
+    with warnings.catch_warnings():
+        warnings.simplefilter('ignore')
+        try:
+            model = read_model_from_string(b.text)
+        except Exception as e:  # reading is C01's business
+            raise Reject(f'start program not read: {type(e).__name__}')
+        tm0 = _text_model(model.code, 'generated start')
+        classes = []
+        try:
+            # the property is about what edits do to the code: the start model must already be consistent
+            check_semantics(model, tm0, spec['k'], b.text, classes)
+        except Violation as v:
+            raise Reject(f'start model not consistent with its own text (C01): {v.clause}')
+        applied = []
+        evals = 0
+        code = None
+        for kind, a, bb in spec['edits'][:4]:
+            try:
+                name, new = guard(_apply_edit, model, kind, a, bb, allowed=DOC_REFUSALS, clause='edit', internal_is_violation=False)
+            except Reject as r:
+                classes.append('edit-refused')
+                continue
+            model = new
+            applied.append(name)
+            ctx = 'generated program -> ' + ' -> '.join(applied)
+            try:
+                code = guard(lambda: model.code, allowed=(), clause='code-generation')
+                tm = _text_model(code, ctx)
+                compare_parameters(model, tm, ctx + '\n' + code)
+                _, used = check_semantics(model, tm, spec['k'], ctx + '\n--- start\n' + b.text + '\n--- generated\n' + code, classes)
+            except Violation as v:
+                raise Violation(v.clause + f'@{name}', observed=v.observed, expected=v.expected, detail=v.detail)
+            evals += used
+    if not applied:
+        raise Reject('no edit applied')
+    classes += [f'edit:{n}' for n in sorted(set(applied))] + [f'len:{len(applied)}']
+    txt = b.text.upper()
+    if 'ELSE' in txt:
+        classes.append('start:has-else')
+    return CaseInfo(nontrivial=len(applied) > 0, classes=tuple(classes), key=None, render=dict(start=b.text, edits=applied, code=code), evals=evals)
+
+
 SUBCHECKS = [
+    SubCheck('generated', _gen_spec, run_generated, quick=400, thorough=6000, quick_time=200, thorough_time=3000),
     SubCheck('history', lambda: SPEC, run_case, quick=320, thorough=6000, quick_time=200, thorough_time=3000, enumerate=canonical_specs),
 ]
+
+
+def _has_empty_branch(code):
+    for s_ in code or []:
+        if s_[0] == 'if':
+            bodies = [b for _, b in s_[1]] + ([s_[2]] if s_[2] is not None else [])
+            if any(len(b) == 0 for b in bodies) or any(_has_empty_branch(b) for b in bodies):
+                return True
+    return False
+
+
+def _pred_generated_empty_branch(spec):
+    from . import c01
+
+    try:
+        return _has_empty_branch(c01.build(spec['prog']).pred)
+    except Exception:
+        return False
+
+
+KNOWN_PREDICATES = {'generated_empty_branch': _pred_generated_empty_branch}
